@@ -14,15 +14,25 @@ pub fn cfg_event(cfg: &Value) -> Value {
 
 pub fn cors_env(cfg: &Value) -> Vec<(String, String)> {
     let origins: Vec<&str> = cfg["origins"].as_array().map(|a| a.iter().map(|x| x.as_str().unwrap_or("")).collect()).unwrap_or_default();
-    vec![
+    // creds_as: how a switched-off credentials setting is expressed: the literal "false", the empty string, or not at all
+    // (the variable is left out: the server then runs with its default)
+    let mut v: Vec<(String, String)> = vec![
         ("RWS_CONFIG_CORS_ALLOW_ALL".into(), cfg["all"].as_bool().unwrap_or(true).to_string()),
         ("RWS_CONFIG_CORS_ALLOW_ORIGINS".into(), origins.join(",")),
-        ("RWS_CONFIG_CORS_ALLOW_CREDENTIALS".into(), cfg["creds"].as_bool().unwrap_or(false).to_string()),
+    ];
+    let creds = cfg["creds"].as_bool().unwrap_or(false);
+    match (creds, cfg["creds_as"].as_str().unwrap_or("literal")) {
+        (false, "unset") => {}
+        (false, "empty") => v.push(("RWS_CONFIG_CORS_ALLOW_CREDENTIALS".into(), String::new())),
+        _ => v.push(("RWS_CONFIG_CORS_ALLOW_CREDENTIALS".into(), creds.to_string())),
+    }
+    v.extend(vec![
         ("RWS_CONFIG_CORS_ALLOW_METHODS".into(), cfg["methods"].as_str().unwrap_or("").to_string()),
         ("RWS_CONFIG_CORS_ALLOW_HEADERS".into(), cfg["headers"].as_str().unwrap_or("").to_string()),
         ("RWS_CONFIG_CORS_EXPOSE_HEADERS".into(), cfg["expose"].as_str().unwrap_or("").to_string()),
         ("RWS_CONFIG_CORS_MAX_AGE".into(), cfg["maxage"].as_str().unwrap_or("").to_string()),
-    ]
+    ]);
+    v
 }
 
 pub fn cors_request_bytes(q: &Value) -> Vec<u8> {
@@ -79,6 +89,11 @@ pub fn run(o: &Opts) -> i32 {
     }
     let res = on_named_thread("0", 8 << 20, move || {
         for (_k, (cfg, cases)) in groups.iter() {
+            // as at start-up: nothing configured, the defaults, then what this configuration supplies
+            for (k, _) in std::env::vars().filter(|(k, _)| k.starts_with("RWS_CONFIG_CORS_")).collect::<Vec<_>>() {
+                std::env::remove_var(k);
+            }
+            rws::entry_point::set_default_values();
             for (k, v) in cors_env(cfg) {
                 std::env::set_var(k, v);
             }
